@@ -1,4 +1,6 @@
 import Bee2V.C03.LemmasF
+import Bee2V.C03.LemmasPrg
+import Bee2V.C03.LemmasCtr
 /-!
 # Property C03 — bash-f, bash hash, programmable automaton, brng, botp compute what the standards define
 
@@ -42,5 +44,121 @@ example :
   have h : Spec.roundsFromV 0 24 i = o := by decide +kernel
   unfold Spec.bashF
   rw [← Spec.roundsFromV_eq, h]
+
+
+/-! ## bash hash and the programmable automaton (bash_hash.c, bash_prg.c)
+
+`F` is the sponge permutation; the theorems hold for every `F`, in particular for `bashF`
+(which is bash-f of the standard by `bashF0_eq_spec`). -/
+
+/- FULL STATEMENT (not proved in Lean):
+   `hashStepG F (l/4) (hashStepH F X (hashStart l)) = Spec.bashHash l X`, where `Spec.bashHash` is the
+   block-form algorithm of STB 34.101.77 §7 (pad `X ‖ 0x40 ‖ 0…` to a multiple of the rate, for each block
+   `S ← F(X_i ‖ S[r..))`, output the first l/4 octets) — and the same for every automaton command (§8).
+   PROVED: the code's buffering skeleton (early return / fill-up / full-block loop / tail, arbitrary
+   chunking) IS the octet-at-a-time sponge `foldBytes` (act on `s[pos]`, advance, apply `F` when
+   `pos = buf_len`).  MISSING: the regrouping of `foldBytes` into whole blocks and the padding rule of
+   StepG; both are exercised by the Python reference of the search oracle and by the test vectors only. -/
+theorem bashSponge_eq_standard_partial (F : Bytes → Bytes) (op : OpB) (data : Bytes) (st : Sp)
+    (h : st.pos < st.bufLen) : stepGen F op data st = foldBytes F op data st :=
+  stepGen_eq_fold F op data st h
+
+example : (hashStart 256).pos < (hashStart 256).bufLen := by decide
+example : stepGen id xorOp [1, 2, 3] ⟨[0, 0], 2, 1⟩ = (⟨[3, 2], 2, 0⟩, [0, 0, 0]) := by decide
+
+/-- every hash level starts in a state with `pos < buf_len` -/
+theorem bashHashStart_inv (l : Nat) (hl : l ≤ 256) : (hashStart l).pos < (hashStart l).bufLen := by
+  simp only [hashStart]; omega
+
+/-- hash chunk independence: feeding the chunks one by one = one `StepH` of the concatenation -/
+theorem bashHash_chunk_independent (F : Bytes → Bytes) (chunks : List Bytes) (st : Sp) (h : st.pos < st.bufLen) :
+    chunks.foldl (fun st c => hashStepH F c st) st = hashStepH F chunks.flatten st := by
+  have := stepChunks_eq F copyOp chunks st h
+  have e : ∀ (cs : List Bytes) (st : Sp), cs.foldl (fun st c => hashStepH F c st) st = (stepChunks F copyOp cs st).1 := by
+    intro cs
+    induction cs with
+    | nil => intro st; rfl
+    | cons c cs ih => intro st; simp only [List.foldl_cons, stepChunks, ih]; rfl
+  rw [e, this]; rfl
+
+example : [[1, 2], [], [3]].foldl (fun st c => hashStepH id c st) (hashStart 256)
+    = hashStepH id [1, 2, 3] (hashStart 256) := by decide
+
+/-- chunk independence of every `…Step` of the automaton (absorb, squeeze, encrypt, decrypt): state AND
+output of several Step calls = those of one call on the concatenated data -/
+theorem bashPrg_steps_chunk_independent (F : Bytes → Bytes) (op : OpB) (chunks : List Bytes) (st : Sp)
+    (h : st.pos < st.bufLen) : stepChunks F op chunks st = stepGen F op chunks.flatten st :=
+  stepChunks_eq F op chunks st h
+
+/-- the state invariant (`l`, `d` legal; `pos < buf_len`; `buf_len` = keyed or keyless rate) holds after
+`bashPrgStart` and every command history that respects the header's length preconditions -/
+theorem bashPrg_invariant (F : Bytes → Bytes) (l d : Nat) (ann key : Bytes)
+    (hl : l = 128 ∨ l = 192 ∨ l = 256) (hd : d = 1 ∨ d = 2) (ha : ann.length ≤ 60) (hk : key.length ≤ 60)
+    (h : List Cmd) (hok : ∀ c ∈ h, c.ok) : (runAll F h (prgStart l d ann key)).WF :=
+  runAll_WF F h hok _ (prgStart_WF l d ann key hl hd ha hk)
+
+/-- **automaton decryption inverts encryption under the same command history**: after ANY history `h`
+(restart / absorb / squeeze / encrypt / decrypt / ratchet, any chunking, any lengths), for every `x`,
+`decr(encr(x)) = x`, and the decrypting party ends in the state of the encrypting party. -/
+theorem bashPrg_decr_inverts_encr (F : Bytes → Bytes) (l d : Nat) (ann key : Bytes)
+    (hl : l = 128 ∨ l = 192 ∨ l = 256) (hd : d = 1 ∨ d = 2) (ha : ann.length ≤ 60) (hk : key.length ≤ 60)
+    (h : List Cmd) (hok : ∀ c ∈ h, c.ok) (x : Bytes) :
+    let st := runAll F h (prgStart l d ann key)
+    prgDecr F (prgEncr F x st).2 st = ((prgEncr F x st).1, x) := by
+  intro st
+  exact prgDecr_prgEncr F x st (bashPrg_invariant F l d ann key hl hd ha hk h hok)
+
+example : (∀ c ∈ [Cmd.absorb [1, 2], Cmd.restart [0, 0, 0, 0] [], Cmd.ratchet, Cmd.squeeze 70], c.ok) := by
+  intro c hc; simp at hc; rcases hc with h | h | h | h <;> subst h <;> simp [Cmd.ok]
+
+/-! ## brng (brng.c) -/
+
+/-- **`brngBlockInc`**: for EVERY 256-bit `s` (including `2^256 − 1` and a carry across every word) the word
+loop gives `s + 1 mod 2^256` and leaves the octets behind the block (`r` in `brng_ctr_st`) untouched — for
+64-bit words (`wb = 8`) and 32-bit words (`wb = 4`). -/
+theorem brngBlockInc_spec (s rest : Bytes) (hs : s.length = 32) :
+    blockInc 8 (s ++ rest) = Bee2V.Proto.natLE 32 ((Bee2V.Proto.leNat s + 1) % 2 ^ 256) ++ rest ∧
+    blockInc 4 (s ++ rest) = Bee2V.Proto.natLE 32 ((Bee2V.Proto.leNat s + 1) % 2 ^ 256) ++ rest :=
+  ⟨blockInc_spec 8 (by decide) (by decide) s rest hs, blockInc_spec 4 (by decide) (by decide) s rest hs⟩
+
+example : blockInc 8 (List.replicate 32 0xFF ++ [7, 7]) = List.replicate 32 0 ++ [7, 7] := by decide
+
+/- FULL STATEMENT (not proved in Lean): the octets returned by ANY sequence of `brngCTRStepR` requests are the
+   prefix-consistent concatenation of `Y_1, Y_2, …` of STB 34.101.47 §6.2 (with the header's buffering rule).
+   PROVED: every generated block — `ctrNext`, which is what `brngCTRStepR` executes per block, complete or
+   partial — is one step of the standard for all `key, s, r, X`.  MISSING: the `reserved` bookkeeping and the
+   request loop (`ctrStepR`/`ctrGen`/`ctrFull`), covered by the correspondence run and the Python oracle only. -/
+theorem brngCTR_eq_standard_partial (wb : Nat) (hwb : wb = 8 ∨ wb = 4) (key s r : Bytes) (hs : s.length = 32)
+    (hr : r.length = 32) (xs : List Bytes) (st : CtrSt) (hmem : st.mem = s ++ r)
+    (hkey : st.keySt = Belt.hashStepH key Belt.hashStart) :
+    let Y := Belt.hash (key ++ s ++ xs.flatten ++ r)
+    ctrNext wb st xs =
+      ({ st with mem := Bee2V.Proto.natLE 32 ((Bee2V.Proto.leNat s + 1) % 2 ^ 256) ++ xorBytes r Y }, Y) := by
+  rcases hwb with h | h <;> subst h
+  · exact ctrNext_spec 8 (by decide) (by decide) key s r hs hr xs st hmem hkey
+  · exact ctrNext_spec 4 (by decide) (by decide) key s r hs hr xs st hmem hkey
+
+example : (ctrStart (zeros 32) (zeros 32)).mem = zeros 32 ++ List.replicate 32 0xFF := by decide
+
+/-! ## botp (botp.c) -/
+
+/-- **`botpCtrNext` = +1 modulo 2^64 on the big-endian counter** (stated for any length `n`: modulo `256^n`) -/
+theorem botpCtrNext_eq (ctr : Bytes) :
+    botpCtrNext ctr = (Bee2V.Proto.natLE ctr.length (Bee2V.Proto.leNat ctr.reverse + 1)).reverse :=
+  botpCtrNext_spec ctr
+
+example : botpCtrNext [0, 0, 0, 0, 0, 0, 0xFF, 0xFF] = [0, 0, 0, 0, 0, 1, 0, 0] := by decide
+example : botpCtrNext (List.replicate 8 0xFF) = List.replicate 8 0 := by decide
+
+/-- **dynamic truncation**: for `digit ≤ 9` the password is `digit` decimal characters whose value is the
+truncated 31-bit number modulo `10^digit` (in particular `< 10^digit`) -/
+theorem botpDT_spec (digit : Nat) (hd : digit ≤ 9) (mac : Bytes) :
+    (botpDT digit mac).length = digit ∧ (∀ c ∈ botpDT digit mac, 48 ≤ c.toNat ∧ c.toNat ≤ 57) ∧
+    decVal (botpDT digit mac) = botpDTnum digit mac ∧ botpDTnum digit mac < 10 ^ digit := by
+  have hlt := botpDTnum_lt digit (by omega) mac
+  refine ⟨decFromU32_length _ _, decFromU32_digits _ _, ?_, hlt⟩
+  rw [botpDT, decVal_decFromU32, Nat.mod_eq_of_lt hlt]
+
+example : botpDT 6 (List.replicate 19 0x12 ++ [0x0A]) = [0x38, 0x34, 0x34, 0x38, 0x36, 0x36] := by decide
 
 end Bee2V.C03
